@@ -110,6 +110,15 @@ func c06Run(L int, rekeyFocus bool) {
 		panic(err)
 	}
 	env.SetupFees(sdkmath.LegacyMustNewDecFromStr("1.5"), 0, 1, 2)
+	// validators 0 and 1 also have accounts on a second chain, under different keys (4 and 5)
+	env.AddChain(ChainB, 2)
+	for v := 0; v < 2; v++ {
+		if err := env.Valset.AddExternalChainInfo(env.Ctx, Vals[v], []*valsettypes.ExternalChainInfo{
+			{ChainType: "evm", ChainReferenceID: ChainA, Address: models.EthAddrs[v], Pubkey: gethcommon.HexToAddress(models.EthAddrs[v]).Bytes()},
+			{ChainType: "evm", ChainReferenceID: ChainB, Address: models.EthAddrs[4+v], Pubkey: gethcommon.HexToAddress(models.EthAddrs[4+v]).Bytes()}}); err != nil {
+			panic(err)
+		}
+	}
 	msg := &evmtypes.Message{TurnstoneID: "compass-" + ChainA, ChainReferenceID: ChainA, Assignee: Vals[0].String(), AssigneeRemoteAddress: models.EthAddrs[0],
 		AssignedAtBlockHeight: sdkmath.NewInt(100),
 		Action:                &evmtypes.Message_SubmitLogicCall{SubmitLogicCall: &evmtypes.SubmitLogicCall{HexContractAddress: "0x6666666666666666666666666666666666666666", Payload: []byte{1, 2}, Deadline: 1000, SenderAddress: []byte("sender-address-20byt")}}}
@@ -169,7 +178,14 @@ func c06Run(L int, rekeyFocus bool) {
 			}
 			bts, _ := cur.GetBytesToSign(env.Cdc)
 			var sig []byte
-			switch sym.Choice("sig-kind", 4) {
+			signedBy := models.EthAddrs[c06KeyOf[v]]
+			switch sym.Choice("sig-kind", 5) {
+			case 4: // genuine, but with the key the validator registered for ANOTHER chain
+				if v >= 2 {
+					continue
+				}
+				sig = models.SignDigest(4+v, c06Digest(bts))
+				signedBy = models.EthAddrs[4+v]
 			case 0: // genuine, over the current bytes
 				sig = models.SignDigest(c06KeyOf[v], c06Digest(bts))
 			case 1: // genuine but over bytes published earlier (stale)
@@ -180,7 +196,7 @@ func c06Run(L int, rekeyFocus bool) {
 				sig = sym.Bytes("sig", 65)
 			}
 			cctx, commit := env.Ctx.CacheContext()
-			err := env.Consensus.AddMessageSignature(cctx, Vals[v], []*consensustypes.ConsensusMessageSignature{{Id: id, QueueTypeName: c06Queue, Signature: sig, SignedByAddress: models.EthAddrs[c06KeyOf[v]]}})
+			err := env.Consensus.AddMessageSignature(cctx, Vals[v], []*consensustypes.ConsensusMessageSignature{{Id: id, QueueTypeName: c06Queue, Signature: sig, SignedByAddress: signedBy}})
 			if err == nil {
 				commit()
 				c06SignedWith[v] = c06KeyOf[v]
